@@ -396,6 +396,7 @@ ssize_t __wrap_read(int fd, void *buf, size_t n) {
 #define MAXGATE 16
 static void run_prog(const char *actor, char *prog);
 static sem_t g_gate[16];
+static volatile int g_blocked[16]; /* actors that reached `block g` */
 /* thread identity by address (the struct may already be wiped on the failed-create path); while the pool
  * is still under construction only the virtual thread can be meant */
 static long hook_tid(tpt_p tpt) {
@@ -589,17 +590,20 @@ static void exec_line(const char *actor, char *line) {
 		sscanf(args, "%d %d", &a, &b);
 		tp_settings_t s; tp_settings_def(&s);
 		s.flags = 0; s.threads_max = (size_t)a; s.tpt_on_start = hook_on_start; s.tpt_on_stop = hook_on_stop;
+		int req = a;
+		if (a == 0) a = (int)sysconf(_SC_NPROCESSORS_CONF); /* "pool 0": the documented default, one thread per CPU; the count the scenario expects comes from here, not from the library */
 		g_n = (size_t)a; g_pipe_sz = b; g_npipe = 0; g_tp = NULL;
+		memset((void *)g_blocked, 0, sizeof(g_blocked));
 		memset(g_sh_head, 0, sizeof(g_sh_head)); memset(g_sh_len, 0, sizeof(g_sh_len));
 		pthread_mutex_lock(&g_led_mu); g_nmem = g_nfd = g_nthr = 0; g_track = 1; pthread_mutex_unlock(&g_led_mu);
-		LOGEV("\"e\":\"call.create\",\"nthr\":%d", a);
+		LOGEV("\"e\":\"call.create\",\"nthr\":%d,\"req\":%d", a, req);
 		tp_p tp = NULL;
 		/* g_tp must be known while tp_create runs (hooks map thread pointers): peek via create.* hooks is
 		 * not possible before calloc returns, so thread ids inside tp_create are logged as "other". */
 		int rc = tp_create(&s, &tp);
 		g_tp = tp;
 		pthread_mutex_lock(&g_led_mu); int nm = g_nmem, nfd = g_nfd, nt = g_nthr; pthread_mutex_unlock(&g_led_mu);
-		LOGEV("\"e\":\"ret.create\",\"rc\":%d,\"mem\":%d,\"fds\":%d,\"thr\":%d", rc, nm, nfd, nt);
+		LOGEV("\"e\":\"ret.create\",\"rc\":%d,\"mem\":%d,\"fds\":%d,\"thr\":%d,\"nmax\":%d,\"want\":%d", rc, nm, nfd, nt, (rc == 0) ? (int)tp_thread_count_max_get(tp) : -1, a);
 		if (rc != 0) { g_track = 0; }
 	} else if (!strcmp(op, "start")) { /* start [skip_first] */
 		sscanf(args, "%d", &a);
@@ -635,7 +639,11 @@ static void exec_line(const char *actor, char *line) {
 		int rc = tpt_msg_cbsend(g_tp, NULL, (uint32_t)a, bcast_cb, m, done_cb);
 		LOGEV("\"e\":\"ret.cbsend\",\"m\":%d,\"rc\":%d", b, rc);
 		if (rc != 0 && m->sem) sem_post(m->sem);
-	} else if (!strcmp(op, "block")) { sscanf(args, "%d", &a); LOGEV("\"e\":\"block\",\"g\":%d", a); sem_wait(&g_gate[a]); LOGEV("\"e\":\"unblock\",\"g\":%d", a);
+	} else if (!strcmp(op, "block")) { sscanf(args, "%d", &a); LOGEV("\"e\":\"block\",\"g\":%d", a); __atomic_add_fetch(&g_blocked[a], 1, __ATOMIC_SEQ_CST); sem_wait(&g_gate[a]); LOGEV("\"e\":\"unblock\",\"g\":%d", a);
+	} else if (!strcmp(op, "waitblocked")) { /* waitblocked g k: until k actors reached `block g` (bounded; counted since the pool was created) */
+		sscanf(args, "%d %d", &a, &b);
+		for (int t = 0; t < 100000 && __atomic_load_n(&g_blocked[a], __ATOMIC_SEQ_CST) < b; t++) usleep(100);
+		if (__atomic_load_n(&g_blocked[a], __ATOMIC_SEQ_CST) < b) LOGEV("\"e\":\"Hang\",\"where\":\"waitblocked\",\"g\":%d", a);
 	} else if (!strcmp(op, "open")) { sscanf(args, "%d", &a); sem_post(&g_gate[a]);
 	} else if (!strcmp(op, "gatewait")) { /* wait on a gate with timeout (used for done callbacks) */
 		sscanf(args, "%d", &a);
